@@ -39,10 +39,8 @@ Lemma push_through_S : N \in unitmx -> S \in unitmx -> curvS \in unitmx -> dcovS
   invmx curvS *m Rh *m invmx N = S *m Rh *m invmx dcovS.
 Proof.
 move=> uN uS uA uB; have H := curvS_dcovS uN uS.
-have: invmx curvS *m (curvS *m (S *m Rh)) *m invmx dcovS
-      = invmx curvS *m (Rh *m invmx N *m dcovS) *m invmx dcovS by rewrite H.
-rewrite mulmxA (mulVmx uA) mul1mx => ->.
-by rewrite -!mulmxA (mulmxV uB) mulmx1 !mulmxA.
+rewrite -mulmxA -(mulmxK uB (Rh *m invmx N)) -H.
+by rewrite (mulmxA (invmx curvS)) (mulKmx uA).
 Qed.
 
 (* The data-space system is solvable whenever the signal-space one is, and conversely
